@@ -536,7 +536,16 @@ def execute(case):
                     if kind == 'read_input':
                         fobj[op['rid']] = b.read_input(op['path'])
                     elif kind == 'read_input_group':
-                        g = b.read_input_group(**op['paths'])
+                        try:
+                            g = b.read_input_group(**op['paths'])
+                        except BatchException as e:
+                            if case['groups'][op['gid']].get('same_base') and 'same file name' in str(e):
+                                # a group whose members would share one local path is refused when it is declared:
+                                # nothing runs, so no two resources share a path
+                                obs['refused'] = True
+                                obs['refused_equal_basename_group'] = True
+                                return obs
+                            raise
                         gobj[op['gid']] = g
                         for nm, rid in case['groups'][op['gid']]['members'].items():
                             fobj[rid] = g[nm]
@@ -791,6 +800,9 @@ def check(ctx, case, obs):
         ww['specs'] = obs.get('specs')
         ctx.violation(key, what, ww)
 
+    if obs.get('refused_equal_basename_group'):
+        ctx.count('equal_basename_input_groups_refused_at_declaration')
+        return False
     if obs.get('refused'):
         ctx.count('probe_refused_loudly')
         return False
